@@ -270,9 +270,7 @@ func (e *Engine) chooseN(st *State, th *Thread, n int, what string) int {
 	}
 	v := e.freshVar(st, th, 64, "ch")
 	st.EnvChoices = st.snapEnv + 1
-	e.assumeQuiet(st, e.tb.ULt(v, e.tb.Int64(int64(n))))
-	k := int(e.concretize(st, v, what))
-	return k
+	return e.forkFresh(st, v, n)
 }
 
 func (e *Engine) assumeQuiet(st *State, c *Term) {
